@@ -39,7 +39,7 @@ def _pending_view(b, params):
     """A handle obtained by selection and not yet materialised shares its source's buffer; a later write to the source is
     visible in it (and in everything computed from it).  Recognised ONLY when the specification's mechanism level marks the
     handle stale AND the observed content is exactly what the mechanism level predicts for it."""
-    return b.get("family") == "heap" and bool(b.get("stale")) and bool(b.get("mech_match"))
+    return b.get("family") == "heap" and (bool(b.get("maystale")) or (bool(b.get("stale")) and bool(b.get("mech_match"))))
 
 
 @classifier("uint64_keys_signed_query")
